@@ -57,8 +57,9 @@ var limits = map[string]float64{
 	// the computed factors), its rounding slack is part of the unit. The
 	// lower side is empirical: the worst case seen is an SPD matrix with a
 	// geometric spectrum, condition 1e6, n = 7, estimated 10.7 times too low.
-	"cond-overestimate":  1.01, // 1     Cond() / (rigorous upper bound (1 + 1e-6 + 1e3 n u kappa))
-	"cond-underestimate": 1500, // 10.7  rigorous lower bound of the estimated quantity / Cond()
+	"cond-transpose-relation": 1000, // 0.93   |Cond(A,1) - Cond(At,Inf)| / (max(m,n) u Cond^2)
+	"cond-overestimate":       1.01, // 1     Cond() / (rigorous upper bound (1 + 1e-6 + 1e3 n u kappa))
+	"cond-underestimate":      1500, // 10.7  rigorous lower bound of the estimated quantity / Cond()
 
 	// matrix functions
 	"exp-general":       1000, // 2.29  max|X - e^A| / (n u (1+|A|_1) e^|A|_1)
